@@ -41,7 +41,7 @@ func init() {
 		ID:          "C20",
 		Rule:        "GenerateRandomExpr at levels 0..40 under a scripted rand.Source (rand.Intn(n) = draw mod n, checked at start-up against math/rand), every combination of EnableVariable/EnableCondition/EnableTryEval, both result types, variable lists passed in fixed order: Go's expression (parsed) and reported result are compared with the model `generate` on the same draws; in addition Go's expression is compiled and evaluated by Go (Eval without DNE variables, TryEval with them) and must return the reported result without error; non-trivial = level >= 1; distinct = distinct (options, level, draws)",
 		Assumptions: []string{"math/rand.Intn on a Source returning v<<32 with v < 2^20 yields v mod n (verified by a sweep in every run)"},
-		Behav:       []int{22}, Fidelity: []int{21}, CodeText: map[int]string{21: "generated expression differs from the model's on the same draws", 22: "reported result differs from the model's"},
+		Behav:       []int{22}, Fidelity: []int{21, 23}, CodeText: map[int]string{21: "generated expression differs from the model's on the same draws", 22: "reported result differs from the model's", 23: "text of the generated expression differs from the model's text of the generated tree"},
 		Gen: func(c *RunCtx) []*Batch {
 			r := c.R
 			// sanity of the scripted source
@@ -213,8 +213,8 @@ func init() {
 				if src.pos < len(used) {
 					used = used[:src.pos]
 				}
-				term := fmt.Sprintf("{| gc_cfg := {| g_var := %s; g_cond := %s; g_try := %s; g_nums := %s; g_bools := %s; g_dnes := %s |}; gc_bool := %s; gc_level := %d%%nat; gc_stream := %s; gc_tree := %s; gc_res := %s |}",
-					coqBool(enVar), coqBool(enCond), coqBool(enTry), lst(nums), lst(bools), lst(dnes), coqBool(isBool), level, coqZList(used), gtr.Coq(), coqValue(res.Res))
+				term := fmt.Sprintf("{| gc_cfg := {| g_var := %s; g_cond := %s; g_try := %s; g_nums := %s; g_bools := %s; g_dnes := %s |}; gc_bool := %s; gc_level := %d%%nat; gc_stream := %s; gc_tree := %s; gc_text := %s; gc_res := %s |}",
+					coqBool(enVar), coqBool(enCond), coqBool(enTry), lst(nums), lst(bools), lst(dnes), coqBool(isBool), level, coqZList(used), gtr.Coq(), coqStr(res.Expr), coqValue(res.Res))
 				tags := []string{fmt.Sprintf("level:%s", bucket(level)), fmt.Sprintf("opts:var=%v,cond=%v,try=%v", enVar, enCond, enTry)}
 				if usesDNE {
 					tags = append(tags, "dne-vars")
